@@ -115,6 +115,9 @@ func execKx(f []string) zv.Out {
 	}
 	at := func(i int) int { v, _ := strconv.Atoi(f[i]); return v }
 	op := f[2]
+	if op == "dgen" || op == "egen" || op == "rdec" {
+		return execKxGen(f)
+	}
 	o := zv.Out{Tags: []string{"kx:op=" + op}}
 	var r tls.ZVC32KxOut
 	var msg []byte
@@ -675,4 +678,5 @@ func genKx(g *zv.Gen) {
 	genKxECDHE(g)
 	genKxDHE(g)
 	genKxCKX(g)
+	genKxGen(g)
 }
